@@ -83,6 +83,7 @@ func newChannel(conn internalConn, client bool, id bin.Bin128, window int32) *ch
 	ch := &channel{}
 	ch.refs.Store(2)
 	ch.state.Store(s)
+	vnew(ch, id)
 	return ch
 }
 
@@ -94,6 +95,7 @@ func openChannel(conn internalConn, client bool, msg pmpx.ChannelOpen) *channel 
 	ch := &channel{}
 	ch.refs.Store(2)
 	ch.state.Store(s)
+	vnew(ch, s.id)
 
 	// Maybe receive data
 	data := msg.Data()
@@ -286,6 +288,7 @@ func (ch *channel) receive(msg pmpx.Message) status.Status {
 	defer ch.release()
 
 	// Ignore messages if closed
+	vtrc("ldclosed", ch)
 	if s.closed.Load() {
 		return status.OK
 	}
@@ -296,6 +299,7 @@ func (ch *channel) receive(msg pmpx.Message) status.Status {
 
 // free is called by the connection to free the channel.
 func (ch *channel) free() {
+	vtrc("free.load", ch)
 	s := ch.state.Load()
 	if s == nil {
 		panic("free of freed channel")
@@ -309,6 +313,7 @@ func (ch *channel) free() {
 
 // acquire increments the refcounter and returns the channel state, panics if freed.
 func (ch *channel) acquire() *channelState {
+	vtrc("acq", ch)
 	refs := ch.refs.Add(1)
 	if refs == 1 {
 		panic("acquire of freed channel")
@@ -325,6 +330,7 @@ func (ch *channel) acquire() *channelState {
 // tryAcquire increments the reference count unless the channel has already been released.
 // The receive loop can look up a channel right before its last reference is dropped.
 func (ch *channel) tryAcquire() (*channelState, bool) {
+	vtrc("tryacq", ch)
 	for {
 		refs := ch.refs.Load()
 		if refs <= 0 {
@@ -342,6 +348,7 @@ func (ch *channel) tryAcquire() (*channelState, bool) {
 }
 
 func (ch *channel) release() {
+	vtrc("rel", ch)
 	refs := ch.refs.Add(-1)
 	if refs > 0 {
 		return
@@ -361,6 +368,7 @@ func (ch *channel) closeUser() {
 	defer ch.release()
 
 	// Check already closed
+	vtrc("ldclosed", ch)
 	closed := s.closed.Load()
 	if closed {
 		return
@@ -371,6 +379,7 @@ func (ch *channel) closeUser() {
 	defer s.close()
 
 	// Send close message
+	vtrc("enq", ch)
 	st := s.sender.sendClose(s.ctx, nil /* no data */)
 	switch st.Code {
 	case status.CodeOK,
